@@ -192,18 +192,24 @@ def hostile_names(rng, sb_tokens: bool = True) -> List[str]:
 # every branch of ImageWriter.export_image: (kind, extension of the file it creates, raises ImportError afterwards?)
 IMG_KINDS = ["bmp8", "bmp8", "bmp1", "bmp24", "raw4", "raw16cmyk", "jpg", "jb2", "pil-flate-cmyk", "pil-jpx", "pil-jpg-cmyk",
              "ill-bits-name", "ill-bits-slashname", "ill-w-name", "ill-h-str", "ill-bits-array", "ill-bits-real", "ill-w-neg",
-             "ill-h-big"]
-# ill-typed BitsPerComponent / Width / Height (the other document-controlled values that reach the file name):
-# value -> what "%d" makes of it (None: TypeError before any path is built)
+             "ill-h-big", "ill-bits-64", "ill-w-zero", "ill-bits-true", "raw-bits-32", "raw-big-w"]
+# ill-typed / implausible BitsPerComponent, Width, Height (the other document-controlled values that could reach the
+# file name): since c8fb48c export_image keeps such an image undecoded as <name>.img (no "%d" of document values)
 ILL_KINDS = {
-    "ill-bits-name": ({"BitsPerComponent": W.Name(b"X")}, None),
-    "ill-bits-slashname": ({"BitsPerComponent": W.Name(b"../../x")}, None),
-    "ill-w-name": ({"BitsPerComponent": 4, "Width": W.Name(b"X")}, None),
-    "ill-h-str": ({"BitsPerComponent": 4, "Height": b"../9"}, None),
-    "ill-bits-array": ({"BitsPerComponent": [4]}, None),
-    "ill-bits-real": ({"BitsPerComponent": 2.5}, (2, 1, 1)),
-    "ill-w-neg": ({"BitsPerComponent": 4, "Width": -3}, (4, -3, 1)),
-    "ill-h-big": ({"BitsPerComponent": 16, "Height": 10 ** 12}, (16, 1, 10 ** 12)),
+    "ill-bits-name": ({"BitsPerComponent": W.Name(b"X")}, ".img"),
+    "ill-bits-slashname": ({"BitsPerComponent": W.Name(b"../../x")}, ".img"),
+    "ill-w-name": ({"BitsPerComponent": 4, "Width": W.Name(b"X")}, ".img"),
+    "ill-h-str": ({"BitsPerComponent": 4, "Height": b"../9"}, ".img"),
+    "ill-bits-array": ({"BitsPerComponent": [4]}, ".img"),
+    "ill-bits-real": ({"BitsPerComponent": 2.5}, ".img"),
+    "ill-w-neg": ({"BitsPerComponent": 4, "Width": -3}, ".img"),
+    "ill-h-big": ({"BitsPerComponent": 16, "Height": 10 ** 12}, ".img"),
+    "ill-bits-64": ({"BitsPerComponent": 64}, ".img"),
+    "ill-w-zero": ({"BitsPerComponent": 4, "Width": 0}, ".img"),
+    "ill-bits-true": ({"BitsPerComponent": True}, ".img"),
+    # plausible but unusual numbers still go through "%d": the suffix is digits only
+    "raw-bits-32": ({"BitsPerComponent": 32, "Width": 7, "Height": 3}, (32, 7, 3)),
+    "raw-big-w": ({"BitsPerComponent": 2, "Width": 2 ** 31 - 1, "Height": 1}, (2, 2 ** 31 - 1, 1)),
 }
 IMG_EXT = {"bmp8": ".bmp", "bmp1": ".bmp", "bmp24": ".bmp", "raw4": ".4.1x1.img", "raw16cmyk": ".16.1x1.img", "jpg": ".jpg",
            "jb2": ".jb2", "pil-flate-cmyk": ".jpg", "pil-jpx": ".jp2", "pil-jpg-cmyk": ".jpg"}
@@ -377,6 +383,8 @@ def run_impl(case: Dict[str, Any]):
     from pdfminer.cmapdb import CMapDB
     from pdfminer.high_level import extract_text_to_fp
     install_hook()
+    import logging
+    logging.getLogger("pdfminer").setLevel(logging.ERROR)      # damaged images are reported with warnings: not our output
     sb = Sandbox(case.get("pre", []))
     old_env = os.environ.get("CMAP_PATH")
     try:
@@ -637,9 +645,11 @@ def check_case(ctx: C.Ctx, case: Dict[str, Any], lines, impl, inputs, shrink: bo
                 kind = first_kind.setdefault(nm, kinds[i] if i < len(kinds) else "bmp8")   # a repeated name reuses the object
                 if kind in ILL_KINDS:
                     vals = ILL_KINDS[kind][1]
-                    # (name, extension | None = "%d" raises TypeError: nothing created, the run ends, run id)
-                    ext = None if vals is None else ".%d.%dx%d.img" % vals
-                    created_model_lines.append((fill_root(nm, root), ext, False, rep, vals))
+                    if isinstance(vals, str):
+                        # implausible dimensions: kept undecoded under the fixed extension
+                        created_model_lines.append((fill_root(nm, root), vals, False, rep, None))
+                    else:
+                        created_model_lines.append((fill_root(nm, root), ".%d.%dx%d.img" % vals, False, rep, vals))
                 else:
                     created_model_lines.append((fill_root(nm, root), IMG_EXT[kind], kind.startswith("pil-"), rep, None))
                 if rep == 0:
